@@ -340,6 +340,13 @@ func (s *Sim) loop() {
 			}
 			s.Step++
 			s.current = w.owner
+			if s.TraceOn && len(enabled) > 1 && len(s.Trace) < s.TraceMax { // trace only: never part of the hash
+				ks := ""
+				for _, x := range enabled {
+					ks += " " + x.key
+				}
+				s.Trace = append(s.Trace, fmt.Sprintf("%d choice %d of:%s", s.Step, i, ks))
+			}
 			s.logLocked("run:" + w.key)
 			s.mu.Unlock()
 			hiddenClose(w.grant)
